@@ -208,8 +208,13 @@ pub fn buffered_input_from_reader_with_limit<'a, R: Read + 'a>(
     max_bytes: Option<usize>,
 ) -> (ReaderInput<'a>, ReaderInputError) {
     // Auto-detect encoding (BOM or guess), decode to UTF-8 on the fly.
+    // UTF-8 input is passed through untouched (only its BOM is removed), so that `ChunkedChars`
+    // validates it strictly whether or not it starts with a BOM; a lossy transcoding would turn
+    // a truncated or invalid sequence into U+FFFD and let the document through.
     let decoder = DecodeReaderBytesBuilder::new()
         .encoding(None) // None = sniff BOM / use heuristics; set Some(encoding) to force
+        .utf8_passthru(true)
+        .strip_bom(true)
         .build(reader);
 
     let error: ReaderInputError = Rc::new(RefCell::new(None));
